@@ -147,6 +147,22 @@ def Cp.hFlush (s : Cp) : Cp × Bool :=
   match s.drvIn with
   | .flush f :: rest =>
     if s.numCache > 0 then (s, false) else
+    -- repaired: the flush waits while a TLB shootdown (whose cache reset shares `numCacheACK`) is in process
+    if s.shoot then (s, false) else
+    let s := s.ordFlush.foldl (fun s i => s.cacheStrict ⟨.flush, i, 0⟩) s
+    if s.fault.isSome then (s, true) else
+    let s := { s with curFlush := some f }
+    let s := if s.numCache = 0 then { s with drvOut := push s.drvOut s.capDrv (.flush f) } else s
+    ({ s with drvIn := rest }, true)
+  | _ => (s, false)
+
+/-- `processFlushReq` BEFORE the repair of round R4: no guard on `shootDownInProcess` (kept for
+    `flush_lost_in_shootdown_before_fix`) -/
+def Cp.hFlushOld (s : Cp) : Cp × Bool :=
+  if s.fault.isSome then (s, false) else
+  match s.drvIn with
+  | .flush f :: rest =>
+    if s.numCache > 0 then (s, false) else
     let s := s.ordFlush.foldl (fun s i => s.cacheStrict ⟨.flush, i, 0⟩) s
     if s.fault.isSome then (s, true) else
     let s := { s with curFlush := some f }
@@ -165,6 +181,8 @@ def Cp.hCtrl (s : Cp) : Cp × Bool :=
     ({ s with rdmaOut := push s.rdmaOut s.capRdma ⟨.restart, 0, 0⟩, drvIn := rest }, true)
   | .shoot id :: rest =>
     if s.shoot then (s, false) else
+    -- repaired: the shootdown waits while the caches still owe acknowledgements of a flush / restart
+    if s.numCache > 0 then (s, false) else
     ({ s with curShoot := some id, shoot := true,
               numCU := (s.numCU + s.nCU) % w64,
               cuOut := pushAll s.cuOut s.capCU ((List.range s.nCU).map fun i => ⟨.flush, i, 0⟩),
@@ -242,6 +260,9 @@ def Cp.rCache (s : Cp) : Cp × Bool :=
   | m :: rest =>
     match m.k with
     | .flush =>
+      -- the last acknowledgement of a regular flush stays in the port while the answer does not fit into ToDriver
+      -- (`numCacheACK == 1 && !shootDownInProcess && !ToDriver.CanSend()` → `return false`)
+      if s.numCache = 1 && !s.shoot && !(s.drvOut.length < s.capDrv) then (s, false) else
       let n := dec s.numCache
       let s := { s with numCache := n, cacheIn := rest }
       if n = 0 then
